@@ -202,4 +202,26 @@ def avOrdered : Term → Bool
        (sortBy (fun e : Term × Term => hrStr e.1) (pairsOf rest)) == (pairsOf rest).reverse
      | _, _, _ => true)
 
+/-! ## hypotheses of `decls_before_use` -/
+
+def allDistinct : List String → Bool
+  | [] => true
+  | x :: xs => !xs.contains x && allDistinct xs
+
+/-- the environment the declarations of `scriptOfFormula logic _ t` build (in `runStd`'s representation: most recent first) -/
+def scriptEnv (logic : String) (t : Term) : SEnv :=
+  { logic := logic, sorts := (sortDecls t).reverse, funs := t.fv.eraseDups.reverse }
+
+/-- `t` is a formula whose script the theorem speaks about: the logic name is a plain symbol, the declared sorts and
+symbols have speakable, pairwise different names and are not predefined, every sort in a signature is declared, and
+`t` is `Printable` in the environment of its own declarations -/
+def ScriptOK (logic : String) (t : Term) : Bool :=
+  isSimpleSymbolChars logic.toList && !isReserved logic &&
+  allDistinct ((sortDecls t).map (·.1)) &&
+  (sortDecls t).all (fun d => d.1.toList.all nameChar && !isReserved d.1 && !predefinedSorts.contains d.1) &&
+  allDistinct (t.fv.eraseDups.map (·.name)) &&
+  t.fv.eraseDups.all (fun s => nameFine s.name && SortOK (scriptEnv logic t) s.ret
+    && s.params.all (SortOK (scriptEnv logic t))) &&
+  t.typeOf == some .bool && Printable (scriptEnv logic t) [] t
+
 end PySMT.Printer
